@@ -30,7 +30,7 @@ func CheckC11(l *Lab, verifDir string) int {
 	rep := NewReport("C11", l.Tier, l.Seed, "fault_enumeration", verifDir)
 	rep.Rule = "complete enumeration of cells {point of the exchange: before handshake, after each of the four steps, client data / host data / both in flight} x {way of ending: CLOSE_CHANNEL, out-of-order packet, unframeable bytes, FIN / RST of the websocket, FIN / RST of legacy IN, FIN / RST of legacy OUT, proper end of the chunked IN body} x transport (130 cells; the ninth point is a client that stopped reading while the host keeps sending, so that the relay's write is blocked when the tunnel ends; the tenth delivers the ending right behind an unanswered channel-create request), a third of the legacy tunnels also get a refused second RDG_IN_DATA request under their own id before the ending, plus a legacy stress in which the OUT connection is dropped at PRNG offsets around the arrival of the IN request, each cell run R times (quick 6, thorough 40) with PRNG pacing and delay points against the race-instrumented real binary. Oracle per tunnel (bounded progress, W=15s): the host connection reaches EOF/RST, every client-facing connection reaches EOF/RST; per cell at quiescence: every connection any host accepted has reached EOF/RST, registry add/del events balance and size is back, no goroutine with a frame in the gateway's protocol/transport packages remains, connection gauges are back at the baseline. non-trivial = the ending was delivered to a live tunnel; distinct = cell x repetition outcome"
 	rep.SetExhaustive(true)
-	rep.Assume("backends never hang up first; a fired watchdog (15 s, >= 1000x the release time of a correct implementation) is a violation only when the gateway process is alive and answering")
+	rep.Assume("the gateway runs with GOGC=off GOMEMLIMIT=3GiB so that finalizers do not stand in for a missing Close; backends never hang up first; a fired watchdog (15 s, >= 1000x the release time of a correct implementation) is a violation only when the gateway process is alive and answering")
 	var cells []c11Cell
 	for p := range c11Points {
 		for _, e := range c11EndWS {
@@ -47,8 +47,12 @@ func CheckC11(l *Lab, verifDir string) int {
 	}
 	rnd := NewRand(l.Seed, "c11")
 	for _, kind := range kinds {
+		// the collector is kept from running (until the heap reaches 3 GiB): a connection that is only
+		// released when a finalizer happens to run is not closed by the gateway, and "no collection
+		// within the watchdog" is a legal schedule
 		m, err := l.NewMultiFixture(MultiOpts{Kind: kind, N: 4, Race: true,
-			Points: "registry=30:300,tunnel.write=10:200,forward.beforeWrite=10:200,process.afterRead=10:200,legacy.attach=20:300,legacy.in.attach=40:400"})
+			Points: "registry=30:300,tunnel.write=10:200,forward.beforeWrite=10:200,process.afterRead=10:200,legacy.attach=20:300,legacy.in.attach=40:400",
+			Mutate: func(c *GWConfig) { c.ExtraEnv = append(c.ExtraEnv, "GOGC=off", "GOMEMLIMIT=3GiB") }})
 		if err != nil {
 			rep.Inconclusive("fixture: " + err.Error())
 			continue
@@ -220,6 +224,7 @@ type c11Result struct {
 	Keys         []string `json:"-"`
 	Inconclusive string   `json:"inconclusive,omitempty"`
 	DupIn        string   `json:"duplicate_in_request,omitempty"`
+	NoByteOnIn   bool     `json:"in_channel_ended_before_its_first_byte,omitempty"`
 	Trace        []TLog   `json:"trace_tail,omitempty"`
 }
 
@@ -242,7 +247,23 @@ func c11Run(m *MultiFixture, cell c11Cell, seed int64) *c11Result {
 		upto = 3 // the channel-create request is sent below, the ending follows without waiting for its response
 	}
 	evFrom := m.GW.EventCount()
-	t, bc, connID, err := m.Stage(env, u, upto)
+	var t *TClient
+	var bc *BConn
+	var connID string
+	var err error
+	if cell.Transport == "legacy" && cell.Point == 0 && (cell.Ending == "fin-in" || cell.Ending == "rst-in") && rnd.Intn(2) == 0 {
+		// the IN connection is closed / reset before the client has sent a single byte on it (the
+		// proper end of an empty body is not used here: the handler's initial raw read would
+		// consume the terminating chunk, which is how the pinned design treats the first bytes)
+		connID = NewConnID("nb")
+		t, _, err = OpenLegacy(m.GW.Addr, LegacyOpts{ConnID: connID, OutHeaders: u.Headers, InHeaders: u.Headers, Preamble: []byte{}})
+		if err == nil && t == nil {
+			err = fmt.Errorf("legacy channels refused")
+		}
+		res.NoByteOnIn = true
+	} else {
+		t, bc, connID, err = m.Stage(env, u, upto)
+	}
 	res.ConnID = connID
 	if err != nil {
 		t2, bc2, id2, err2 := m.Stage(env, u, upto)
@@ -325,7 +346,7 @@ func c11Run(m *MultiFixture, cell c11Cell, seed int64) *c11Result {
 		t.Send(SymCCx(u.B).Wire)
 		time.Sleep(time.Duration(rnd.Intn(600)) * time.Microsecond)
 	}
-	if cell.Transport == "legacy" && rnd.Intn(3) == 0 {
+	if cell.Transport == "legacy" && rnd.Intn(3) == 0 && !res.NoByteOnIn {
 		// a second RDG_IN_DATA request under the id of the live tunnel: refused, and
 		// the tunnel's bookkeeping must be unaffected when it ends
 		x, xres, _ := OpenLegacy(m.GW.Addr, LegacyOpts{ConnID: res.ConnID, SkipOut: true, InHeaders: u.Headers})
